@@ -326,7 +326,7 @@ func genTarget(r *coqfmt.Rand, id int) Case {
 		tt := t
 		// perturb the six sampled positions: ties, inversions, far future
 		if i >= n-3 || (i >= n-147 && i <= n-145) {
-			switch r.Intn(6) {
+			switch r.Intn(10) {
 			case 0:
 				tt = t + 7200
 			case 1:
@@ -335,6 +335,12 @@ func genTarget(r *coqfmt.Rand, id int) Case {
 				}
 			case 2:
 				tt = t - t%3600 // likely ties
+			case 3: // far future / far past: spans beyond 2^31 seconds in either direction
+				tt = t + 0x80000000 + uint32(r.Intn(1000))
+			case 4:
+				tt = 0xffffffff - uint32(r.Intn(100))
+			case 5:
+				tt = uint32(r.Intn(100))
 			}
 		}
 		c.Times = append(c.Times, tt)
